@@ -91,6 +91,7 @@ ESCAPING_ENTRY_POINTS = {'new', 'push_literal', 'push_path_parameter', 'push_que
 def battery_generated():
     from checks import c04
     ops = [{'op': 'loopback_gen', 'endpoint': 'g5', 'tok': 'a/b+c=', 'qt': 'x+/=='}, {'op': 'loopback_gen', 'endpoint': 'g5', 'tok': '+', 'qt': '/'},
+           {'op': 'loopback_gen', 'endpoint': 'g6', 'lst_arg': [], 'set_arg': [], 'q_arg': b'a b'.hex()}, {'op': 'loopback_gen', 'endpoint': 'g6', 'lst_arg': [], 'set_arg': [b'&'.hex()], 'q_arg': b'='.hex()},
            {'op': 'loopback_gen', 'endpoint': 'g1', 'path_arg': -1, 'query_arg': b'a&b=c#?'.hex(), 'header_arg': 0, 'token': 't'},
            {'op': 'loopback_gen', 'endpoint': 'g2', 'p_arg': b'/%2F?'.hex(), 'opt_arg': None, 'lst_arg': [], 'bar_arg': None, 'token': 't'}]
     out = []
@@ -128,7 +129,7 @@ def run_generated_discipline(rep):
         rep.inconc('vacuity: no generated client method uses UriBuilder')
     for fail in battery_generated():
         rep.violation('C07:native:generated', f'native twin: {fail}', {'native': fail})
-    rep.replayed += 4
+    rep.replayed += 6
 
 
 def run(rep, tier):
